@@ -69,8 +69,15 @@ func NewBundleDescriptorFromBundle(b bpv7.Bundle, store *storage.Store) BundleDe
 // Sync this BundleDescriptor to the store.
 func (descriptor BundleDescriptor) Sync() error {
 	if !descriptor.store.KnowsBundle(descriptor.Id.Scrub()) {
-		return descriptor.store.Push(*descriptor.bndl)
-	} else if bi, err := descriptor.store.QueryId(descriptor.Id.Scrub()); err != nil {
+		if err := descriptor.store.Push(*descriptor.bndl); err != nil {
+			return err
+		} else if len(descriptor.Constraints) == 0 {
+			return nil
+		}
+		// The receiver, the reception time and the constraints of a just pushed Bundle are persisted as well.
+	}
+
+	if bi, err := descriptor.store.QueryId(descriptor.Id.Scrub()); err != nil {
 		return err
 	} else if len(descriptor.Constraints) == 0 {
 		return descriptor.store.Delete(descriptor.Id)
